@@ -1564,3 +1564,212 @@ Proof.
     + rewrite lookup_insert in Hx. inversion Hx; subst. exact E1.
     + rewrite Hlk in Hx by exact Hne. exact (W8 x h0 b0 Hx).
 Qed.
+
+(** * J. Gluing the phases together *)
+
+Lemma foldl_proj' {A B S} (f : S → A → S) (pr : S → B) (l : list A) :
+  (∀ s a, pr (f s a) = pr s) → ∀ s, pr (foldl f s l) = pr s.
+Proof.
+  intros Hf. induction l as [|a l IH]; intros s; simpl; [reflexivity|]. rewrite IH. apply Hf.
+Qed.
+
+Lemma umb_in_unm h bh bhash acc ii :
+  unmined (umb_in h bh bhash acc ii).1 = unmined acc.1 ∧
+  unmined_credits (umb_in h bh bhash acc ii).1 = unmined_credits acc.1 ∧
+  unmined_inputs (umb_in h bh bhash acc ii).1 = unmined_inputs acc.1.
+Proof.
+  destruct acc as [s nb], ii as [i op]. unfold umb_in.
+  destruct (cred_key_of_unspent s op); simpl; auto.
+Qed.
+
+Lemma umb_mc_unm h bh bhash acc kv :
+  unmined (umb_mc h bh bhash acc kv).1 = unmined acc.1 ∧
+  unmined_credits (umb_mc h bh bhash acc kv).1 = unmined_credits acc.1 ∧
+  unmined_inputs (umb_mc h bh bhash acc kv).1 = unmined_inputs acc.1.
+Proof. destruct acc as [s nb], kv as [op [a c]]. simpl. auto. Qed.
+
+Lemma umb_unm t bh bhash s :
+  unmined (update_mined_balance t (bh, bhash) s) = unmined s ∧
+  unmined_credits (update_mined_balance t (bh, bhash) s) = unmined_credits s ∧
+  unmined_inputs (update_mined_balance t (bh, bhash) s) = unmined_inputs s.
+Proof.
+  rewrite umb_eq.
+  pose proof (foldl_proj' (umb_in (t_id t) bh bhash) (λ acc, unmined acc.1) (zip (indices (t_ins t)) (t_ins t))
+                (λ acc ii, proj1 (umb_in_unm _ _ _ acc ii)) (s, bal s)) as H1.
+  pose proof (foldl_proj' (umb_in (t_id t) bh bhash) (λ acc, unmined_credits acc.1) (zip (indices (t_ins t)) (t_ins t))
+                (λ acc ii, proj1 (proj2 (umb_in_unm _ _ _ acc ii))) (s, bal s)) as H2.
+  pose proof (foldl_proj' (umb_in (t_id t) bh bhash) (λ acc, unmined_inputs acc.1) (zip (indices (t_ins t)) (t_ins t))
+                (λ acc ii, proj2 (proj2 (umb_in_unm _ _ _ acc ii))) (s, bal s)) as H3.
+  destruct (foldl (umb_in (t_id t) bh bhash) (s, bal s) (zip (indices (t_ins t)) (t_ins t))) as [s5 nb1].
+  simpl in H1, H2, H3.
+  set (mcs := filter (λ kv : N * N * (Z * bool), kv.1.1 = t_id t) (map_to_list (unmined_credits s5))).
+  pose proof (foldl_proj' (umb_mc (t_id t) bh bhash) (λ acc, unmined acc.1) mcs
+                (λ acc kv, proj1 (umb_mc_unm _ _ _ acc kv)) (s5, nb1)) as H4.
+  pose proof (foldl_proj' (umb_mc (t_id t) bh bhash) (λ acc, unmined_credits acc.1) mcs
+                (λ acc kv, proj1 (proj2 (umb_mc_unm _ _ _ acc kv))) (s5, nb1)) as H5.
+  pose proof (foldl_proj' (umb_mc (t_id t) bh bhash) (λ acc, unmined_inputs acc.1) mcs
+                (λ acc kv, proj2 (proj2 (umb_mc_unm _ _ _ acc kv))) (s5, nb1)) as H6.
+  destruct (foldl (umb_mc (t_id t) bh bhash) (s5, nb1) mcs) as [s6 nb2].
+  simpl in *. rewrite H4, H5, H6, H1, H2, H3. auto.
+Qed.
+
+Lemma unlock_all_set_locked ops : ∀ s,
+  unlock_all s ops = set_locked (fun m => foldl (fun m op => delete op m) m ops) s.
+Proof.
+  unfold unlock_all. induction ops as [|op ops IH]; intros s; cbn [foldl].
+  - destruct s; reflexivity.
+  - rewrite IH. reflexivity.
+Qed.
+
+Lemma InvM_set_locked U f s cm : InvM U s cm → InvM U (set_locked f s) cm.
+Proof. intros HM. destruct HM. constructor; assumption. Qed.
+
+Definition dutq (t : tx) (s : store) : store :=
+  match unmined s !! t_id t with Some _ => delete_unmined_tx t s | None => s end.
+
+Lemma graft_self s : graft s s = s.
+Proof. destruct s; reflexivity. Qed.
+
+Lemma dutq_graft t r base : dutq t (graft r base) = graft (dutq t r) base.
+Proof. unfold dutq. simpl. destruct (unmined r !! t_id t); [apply dut_graft|reflexivity]. Qed.
+
+Lemma dutq_self_graft t s : dutq t s = graft (dutq t s) s.
+Proof. rewrite <- dutq_graft. rewrite graft_self. reflexivity. Qed.
+
+Lemma insert_mined_eq U fuel t bh bhash btime s :
+  txrecs s !! (t_id t, bh, bhash) = None →
+  insert_mined U fuel t (bh, bhash) btime s =
+  match remove_double_spends U fuel t
+          (dutq t (update_mined_balance t (bh, bhash)
+                     (set_txrecs (<[(t_id t, bh, bhash) := tt]>) (blk_upd (t_id t) bh bhash btime s)))) with
+  | None => None
+  | Some s5 => Some (false, unlock_all s5 (t_ins t))
+  end.
+Proof.
+  intros Hn. unfold insert_mined. rewrite Hn.
+  rewrite bool_decide_eq_false_2 by (intros [x Hx]; discriminate). reflexivity.
+Qed.
+
+Lemma apply_confirm_eq U t bh bhash btime s sU' :
+  txrecs s !! (t_id t, bh, bhash) = None →
+  remove_double_spends U (fuel_of U) t (dutq t s) = Some sU' →
+  apply_confirm U t (bh, bhash) btime s =
+  Some (graft sU' (unlock_all (mined_part t (t_id t) bh bhash btime s) (t_ins t))).
+Proof.
+  intros Hn Hrds. unfold apply_confirm. rewrite insert_mined_eq by exact Hn.
+  set (s3 := update_mined_balance t (bh, bhash)
+               (set_txrecs (<[(t_id t, bh, bhash) := tt]>) (blk_upd (t_id t) bh bhash btime s))).
+  assert (Hs3 : s3 = graft s s3).
+  { symmetry. apply graft_same; unfold s3.
+    - destruct (umb_unm t bh bhash (set_txrecs (<[(t_id t, bh, bhash) := tt]>) (blk_upd (t_id t) bh bhash btime s))) as (H1 & _).
+      rewrite H1. unfold blk_upd. destruct (blocks s !! bh); reflexivity.
+    - destruct (umb_unm t bh bhash (set_txrecs (<[(t_id t, bh, bhash) := tt]>) (blk_upd (t_id t) bh bhash btime s))) as (_ & H2 & _).
+      rewrite H2. unfold blk_upd. destruct (blocks s !! bh); reflexivity.
+    - destruct (umb_unm t bh bhash (set_txrecs (<[(t_id t, bh, bhash) := tt]>) (blk_upd (t_id t) bh bhash btime s))) as (_ & _ & H3).
+      rewrite H3. unfold blk_upd. destruct (blocks s !! bh); reflexivity. }
+  rewrite Hs3 at 1. rewrite dutq_graft, rds_graft, Hrds. simpl.
+  rewrite unlock_all_graft.
+  change (Some (add_credits t (bh, bhash) (graft sU' (unlock_all s3 (t_ins t))) (t_creds t)) =
+          Some (graft sU' (unlock_all (mined_part t (t_id t) bh bhash btime s) (t_ins t)))).
+  rewrite add_credits_graft, add_credits_unlock_all. reflexivity.
+Qed.
+
+Lemma locked_unlock_all s ops : locked (unlock_all s ops) = foldl (fun m op => delete op m) (locked s) ops.
+Proof. rewrite unlock_all_set_locked. reflexivity. Qed.
+
+Lemma InvU_minus_absent U s (C : gset N) (x : N) : x ∉ C → InvU U s C → InvU U s (C ∖ {[x]}).
+Proof.
+  intros Hx [H1 H2 H3 H4].
+  assert (Heq : ∀ y, y ∈ C ∖ {[x]} ↔ y ∈ C).
+  { intros y. rewrite elem_of_difference, elem_of_singleton. split; [tauto|]. intros Hy. split; [exact Hy|].
+    intros ->. contradiction. }
+  constructor.
+  - intros y. rewrite Heq. apply H1.
+  - intros op a chg. rewrite Heq. apply H2.
+  - intros op l Hl. destruct (H3 op l Hl) as (Ha & Hb & Hc). split; [exact Ha|]. split; [exact Hb|].
+    intros u. rewrite Heq. apply Hc.
+  - intros op u Hu. apply H4. apply Heq. exact Hu.
+Qed.
+
+Section confirm.
+  Context (U : universe).
+  Hypothesis Hdesc : descendants_correct U.
+  Hypothesis Hrc : remove_conflict_correct U.
+
+  Lemma confirm_first (tid : N) (t : tx) (h : Z) (bhash : N) (btime : Z) (s : store) (F : facts) :
+    wf_universe U = true → Inv U s F →
+    U !! tid = Some t → f_conf F !! tid = None →
+    event_ok U F (Confirm tid h bhash btime) = true →
+    ∃ s', apply_confirm U t (h, bhash) btime s = Some s' ∧ Inv U s' (spec_confirm U F tid (h, bhash)).
+  Proof.
+    intros HwfU HI HUt Hnone Hok.
+    destruct (wf_tx_unpack tid t (wf_universe_tx U tid t HwfU HUt)) as (Hid & Hnd_ins & Hnd_creds & Hrange & Hins_lt).
+    assert (Hins_ne : ∀ op, op ∈ t_ins t → op.1 ≠ tid).
+    { intros op Hop Heq. specialize (Hins_lt op Hop). rewrite Heq in Hins_lt. lia. }
+    destruct (event_ok_confirm_first U F tid h bhash btime t Hok HUt Hnone) as (E1 & E2 & E3 & E4 & E5).
+    destruct (Inv_split U s F HI) as (HwfF & HM & HU & HL).
+    assert (Hins : tx_ins U tid = t_ins t) by (unfold tx_ins; rewrite HUt; reflexivity).
+    set (C0 := f_unconf F ∖ {[tid]}).
+    assert (HtidC0 : tid ∉ C0). { unfold C0. rewrite elem_of_difference, elem_of_singleton. tauto. }
+    assert (HC0sub : C0 ⊆ f_unconf F). { intros x Hx. unfold C0 in Hx. apply elem_of_difference in Hx. tauto. }
+    (* the unmined part, with the transaction taken out of the mempool *)
+    assert (HI0 : Inv U (dutq t s) (wu F C0)).
+    { apply Inv_join; simpl.
+      - apply (facts_wf_shrink U F C0 HwfF HC0sub).
+      - rewrite dutq_self_graft. apply InvM_graft. exact HM.
+      - unfold dutq. rewrite Hid. destruct (unmined s !! tid) as [[]|] eqn:Hun.
+        + apply dut_InvU; assumption.
+        + apply InvU_minus_absent; [|exact HU]. intros Hin. apply (iu_unmined U s _ HU) in Hin.
+          rewrite Hun in Hin. destruct Hin as [x Hx]. discriminate.
+      - rewrite dutq_self_graft. simpl. exact HL. }
+    set (cf := filter (λ u, conflicts U tid u) (elements C0)).
+    assert (Hcf : ∀ u, u ∈ cf ↔ u ∈ C0 ∧ ∃ op, op ∈ t_ins t ∧ op ∈ tx_ins U u).
+    { intros u. unfold cf. rewrite elem_of_list_filter, elem_of_elements. unfold conflicts.
+      rewrite Hins. split.
+      - intros [Hc Hu]. split; [exact Hu|]. apply Is_true_true in Hc. apply andb_true_iff in Hc. destruct Hc as [_ Hex].
+        apply existsb_exists in Hex. destruct Hex as (op & Hop & Hsp). exists op.
+        split; [apply elem_of_list_In; exact Hop|]. unfold spends in Hsp. apply bool_decide_eq_true in Hsp. exact Hsp.
+      - intros [Hu (op & Hop & Hsp)]. split; [|exact Hu]. apply Is_true_true. apply andb_true_iff. split.
+        + apply bool_decide_eq_true_2. intros ->. contradiction.
+        + apply existsb_exists. exists op. split; [apply elem_of_list_In; exact Hop|].
+          unfold spends. apply bool_decide_eq_true_2. exact Hsp. }
+    destruct (rds_correct U Hdesc Hrc HwfU F C0 (t_ins t) cf tid Hcf HtidC0 (dutq t s) HI0)
+      as (sU' & C' & Hfold & HI' & Hchar & Hno).
+    assert (Hrds : remove_double_spends U (fuel_of U) t (dutq t s) = Some sU').
+    { rewrite rds_eq, Hid. exact Hfold. }
+    assert (Htxn : txrecs s !! (t_id t, h, bhash) = None).
+    { rewrite Hid. destruct (txrecs s !! (tid, h, bhash)) as [x|] eqn:Htx; [|reflexivity].
+      assert (Hs : is_Some (txrecs s !! (tid, h, bhash))) by (rewrite Htx; eexists; reflexivity).
+      apply (im_txrecs U s _ HM) in Hs. rewrite Hnone in Hs. discriminate. }
+    rewrite (apply_confirm_eq U t h bhash btime s sU' Htxn Hrds). rewrite Hid.
+    eexists. split; [reflexivity|].
+    (* the resulting facts *)
+    assert (HC'sub : C' ⊆ C0). { intros x Hx. apply Hchar in Hx. tauto. }
+    set (F1 := {| f_conf := <[tid := (h, bhash)]> (f_conf F); f_unconf := f_unconf F ∖ {[tid]};
+                  f_leases := foldl (λ m op, delete op m) (f_leases F) (tx_ins U tid) |}).
+    assert (Hspec : spec_confirm U F tid (h, bhash) = wu F1 C').
+    { unfold spec_confirm. rewrite Hnone. fold F1. fold C0. fold cf.
+      apply (rm_eq_with_unconf U F1 cf C'). intros c. rewrite Hchar. simpl. fold C0.
+      split; intros [Hc Hnd]; (split; [exact Hc|]); intros Hd; apply Hnd;
+        (eapply depends_on_ext; [|exact Hd]); reflexivity. }
+    rewrite Hspec.
+    apply Inv_join; simpl.
+    - apply (facts_wf_confirm U F tid t h bhash C' _ HUt Hins_ne Hnone); try assumption.
+      + exact (inv_wf U sU' (wu F C') HI').
+      + intros Hin. apply HtidC0. apply HC'sub. exact Hin.
+      + intros x Hx. apply HC0sub, HC'sub, Hx.
+    - apply InvM_graft. rewrite unlock_all_set_locked. apply InvM_set_locked.
+      apply mined_InvM; try assumption.
+      destruct (decide (tid ∈ f_unconf F)) as [Hin|Hnin].
+      + left. intros op a chg Hop. rewrite (iu_credits U s _ HU op a chg).
+        unfold is_credited, creds_of. rewrite Hop, HUt. split.
+        * intros (_ & Hc & Ha). split; assumption.
+        * intros (Hc & Ha). split; [exact Hin|split; assumption].
+      + right. intros op Hop. destruct (unmined_credits s !! op) as [[a chg]|] eqn:Hmc; [|reflexivity].
+        apply (iu_credits U s _ HU op a chg) in Hmc. destruct Hmc as (Hin & _). rewrite Hop in Hin. contradiction.
+    - apply InvU_graft. destruct (Inv_split U sU' (wu F C') HI') as (_ & _ & HU' & _). exact HU'.
+    - rewrite locked_unlock_all.
+      destruct (mined_summary U t tid h bhash HUt Hid Hnd_ins Hins_ne btime s) as (_ & _ & _ & _ & _ & _ & Hlk).
+      all: try (rewrite Hins; rewrite Hlk; rewrite HL; reflexivity).
+  Abort.
+End confirm.
